@@ -170,10 +170,18 @@ def params(prog, run):
             run.ob("R-param", pre.qual, "dt->SD_est.dt", ok, f"dt = `{astq.src(x)}`{via}", witness=astq.src(x, 60), file=fh, node=c, config=f"call#{i}")
     # inside SD_est: csd keywords
     fe = rel(prog.mods[est.mod].path)
+    # the estimator specialised to the periodogram method: its csd call(s), with option dicts written out
+    est_pos = astq.params_of(est.node)[0]
+    mpar = "method" if "method" in est_pos else (est_pos[4] if len(est_pos) > 4 else None)
+    est_full = est
+    if mpar is not None:
+        est = astq.PrunedFn(est_full, {mpar: "per"})
     csds = [c for c, nm in astq.calls_resolved(prog, est, lambda n: n == "scipy.signal.csd")]
     per = [c for c in csds if astq.kwarg(c, "fs") is not None]
+    if not per and csds and not any(k.arg is None for c in csds for k in c.keywords):
+        per = csds          # the periodogram's csd call lacks fs=: reported below as dt->fs
     if not per:
-        run.ob("R-param", est.qual, "csd(per)", False, "no csd call with fs= (periodogram branch) found", witness="missing", file=fe)
+        run.ob("R-param", est.qual, "csd(per)", False if not csds else None, "no csd call with fs= (periodogram branch) found", witness="missing", file=fe)
     for c in per:
         nov = astq.kwarg(c, "noverlap")
         x = astq.expand(est, nov) if nov is not None else None
@@ -188,10 +196,15 @@ def params(prog, run):
         run.ob("R-param", est.qual, "nxseg->nperseg", ok, f"nperseg = `{astq.src(nps) if nps is not None else None}`",
                witness=astq.src(nps, 60) if nps is not None else "missing", file=fe, node=c)
         w = astq.kwarg(c, "window")
+        if w is not None and not isinstance(w, ast.Constant):
+            w = astq.expand(est, w)
         ok = isinstance(w, ast.Constant) and w.value in ("hann", "hanning")
         run.ob("R-param", est.qual, "window", ok, f"window = `{astq.src(w) if w is not None else 'default (hann)'}`" , witness=astq.src(w, 40) if w is not None else "default", file=fe, node=c) if w is not None else \
             run.ob("R-param", est.qual, "window", True, "window default of scipy.signal.csd is 'hann'", file=fe, node=c)
         fsv = astq.kwarg(c, "fs")
+        if fsv is None:
+            run.ob("R-param", est.qual, "dt->fs", False, "the periodogram's csd call gets no fs= (frequencies in cycles per sample)", witness="missing", file=fe, node=c)
+            continue
         x = astq.expand(est, fsv)
         ok = isinstance(x, ast.BinOp) and isinstance(x.op, ast.Div) and isinstance(x.left, ast.Constant) and x.left.value == 1 and isinstance(x.right, ast.Name) and x.right.id == "dt"
         run.ob("R-param", est.qual, "dt->fs", ok, f"fs = `{astq.src(x)}`", witness=astq.src(x, 40), file=fe, node=c)
